@@ -74,12 +74,14 @@ def posCurrentOf (s : PopSt) (idx : Nat) : Except Err Pos :=
     | none => .error (.other "TypeError")
   | none => .error .indexError
 
+/-- `random.choice([i for i in range(0, n_ind - 1) if i != rnd_int])` (`range(0, n_ind)` for two individuals): admissible results -/
+def secondParentOK (n k k2 : Nat) : Bool := decide (k2 ≠ k) && decide (k2 < (if n > 2 then n - 1 else n))
+
 /-- `_cross` -/
 def esCross (cfg : ESCfg) (s : PopSt) (perm : List Nat) (k : Nat) (tape : Tape) : Except Err (Pos × PopSt) := do
   let n := s.members.length
   let (k2, t1) ← takeInt tape
-  -- `random.choice([i for i in range(0, n_ind - 1) if i != rnd_int])` (`range(0, n_ind)` for two individuals)
-  if k2 = k ∨ ¬ (k2 < (if n > 2 then n - 1 else n)) then .error (protocol "second-parent")
+  if secondParentOK n k k2 = false then .error (protocol "second-parent")
   else do
     let cur := perm.getD k 0
     let sec := perm.getD k2 0
@@ -194,47 +196,76 @@ def takeRand01 : Tape → Except Err (Rat × Tape)
   | [] => .error .needMore
   | _ => .error (protocol "random.random")
 
-/-- `_crossover()`: `fittest_parents()` (sort, the 1 % replacement draw), the sampled parents, the offspring -/
-def gaCrossover (cfg : GACfg) (s : PopSt) (tape : Tape) : Except Err (List Pos × Tape) := do
-  let (_, t1) ← popSorted s tape
-  let (x, t2) ← takeRand01 t1
-  let t3 ← if (1 : Rat) / 100 ≥ x then do
-      let (_, a) ← takeInt t2
-      let (_, b) ← takeInt a
-      pure b
-    else pure t2
-  match t3 with
-  | .parents idxs :: t4 => do
-    let ps ← idxs.mapM (posNewOf s)
-    if ps = [] then .error .indexError          -- `parent_pos_l[0]` of an empty list
-    else gaOffspring cfg ps cfg.nOffspring [] t4
+/-- the 1 % replacement inside `fittest_parents`: `best_l[random.randint(…)] = random.choice(worst_l)` - two integer draws -/
+def gaReplaceDraws (x : Rat) (tape : Tape) : Except Err Tape :=
+  if (1 : Rat) / 100 ≥ x then
+    match takeInt tape with
+    | .error e => .error e
+    | .ok a => match takeInt a.2 with
+      | .error e => .error e
+      | .ok b => .ok b.2
+  else .ok tape
+
+/-- the sampled parents and the offspring made from them -/
+def gaParents (cfg : GACfg) (s : PopSt) : Tape → Except Err (List Pos × Tape)
+  | .parents idxs :: t4 =>
+    match idxs.mapM (posNewOf s) with
+    | .error e => .error e
+    | .ok ps =>
+      if ps = [] then .error .indexError          -- `parent_pos_l[0]` of an empty list
+      else gaOffspring cfg ps cfg.nOffspring [] t4
   | [] => .error .needMore
   | _ => .error (protocol "_crossover")
 
+/-- `_crossover()`: `fittest_parents()` (sort, the 1 % replacement draw), the sampled parents, the offspring -/
+def gaCrossover (cfg : GACfg) (s : PopSt) (tape : Tape) : Except Err (List Pos × Tape) :=
+  match popSorted s tape with
+  | .error e => .error e
+  | .ok x1 =>
+    match takeRand01 x1.2 with
+    | .error e => .error e
+    | .ok x2 =>
+      match gaReplaceDraws x2.1 x2.2 with
+      | .error e => .error e
+      | .ok t3 => gaParents cfg s t3
+
+/-- the crossover branch of `iterate`: refill the offspring queue when it is empty, emit its head via the current individual -/
+def gaCross (cfg : GACfg) (g : GASt) (cur : Nat) (tape : Tape) : Except Err (Pos × GASt) :=
+  -- `self.p_current` is the individual just drawn: its `move_climb` repairs infeasible offspring
+  match (if g.offspring = [] then gaCrossover cfg g.pop tape else .ok (g.offspring, tape)) with
+  | .error e => .error e
+  | .ok x =>
+    match x.1 with
+    | [] => .error .indexError                -- `pop(0)` of an empty list (`offspring = 0`)
+    | o :: rest =>
+      match emitVia g.pop cur o x.2 with
+      | .error e => .error e
+      | .ok y => .ok (y.1, { pop := y.2, offspring := rest })
+
+def gaMutate (cfg : GACfg) (g : GASt) (idx : Nat) (tape : Tape) : Except Err (Pos × GASt) :=
+  match memberIterate cfg.member g.pop idx tape with
+  | .error e => .error e
+  | .ok y => .ok (y.1, { g with pop := y.2 })
+
+/-- `iterate` once the population is sorted and an individual is drawn -/
+def gaBranch (cfg : GACfg) (g : GASt) (perm : List Nat) (k : Nat) (tape : Tape) : Except Err (Pos × GASt) :=
+  if ¬ k < g.pop.members.length then .error .valueError
+  else
+    match takeNpUnif tape with
+    | .error e => .error e
+    | .ok x =>
+      if x.1 ≤ cfg.mutationRate then gaMutate cfg g (perm.getD k 0) x.2
+      else gaCross cfg g (perm.getD k 0) x.2
+
 def gaIterate (cfg : GACfg) (g : GASt) : Except Err (Pos × GASt) :=
-  let s := g.pop
-  let n := s.members.length
-  if n = 1 then do
-    let (p, s') ← memberIterate cfg.member s 0 s.tape
-    pure (p, { g with pop := s' })
-  else do
-    let (perm, t1) ← popSorted s s.tape
-    let (k, t2) ← takeInt t1
-    if ¬ k < n then .error .valueError
-    else do
-      let cur := perm.getD k 0
-      let (x, t3) ← takeNpUnif t2
-      if x ≤ cfg.mutationRate then do
-        let (p, s') ← memberIterate cfg.member s cur t3
-        pure (p, { g with pop := s' })
-      else do
-        -- `self.p_current` is the individual just drawn: its `move_climb` repairs infeasible offspring
-        let (offs, t4) ← if g.offspring = [] then gaCrossover cfg s t3 else pure (g.offspring, t3)
-        match offs with
-        | [] => .error .indexError                -- `pop(0)` of an empty list (`offspring = 0`)
-        | o :: rest => do
-          let (p, s') ← emitVia s cur o t4
-          pure (p, { pop := s', offspring := rest })
+  if g.pop.members.length = 1 then gaMutate cfg g 0 g.pop.tape
+  else
+    match popSorted g.pop g.pop.tape with
+    | .error e => .error e
+    | .ok x1 =>
+      match takeInt x1.2 with
+      | .error e => .error e
+      | .ok x2 => gaBranch cfg g x1.1 x2.1 x2.2
 
 def gaBackend (cfg : GACfg) : Backend GASt where
   initPos g := (ptInitPos g.pop).map (fun x => (x.1, { g with pop := x.2 }))
